@@ -5,5 +5,7 @@ CONSTANTS VrfLen = 2
           MAXE = 6
           MAXC = 6
           Tables <- TablesQ
+          NewTables <- NoNew
+          SeedBytes <- AllBytes
 INVARIANT PropC40
 CHECK_DEADLOCK FALSE
